@@ -1,12 +1,18 @@
 """debug helper: print the event paths of one method, optionally on a benign/ patch
-usage: python3 tools/dbg_paths.py <patch-id|-> <module.Class> <method>"""
+usage: python3 tools/dbg_paths.py <patch-id|dir-with-patch.diff|-> <module.Class> <method>"""
 import os, sys
 sys.path.insert(0, os.path.dirname(os.path.dirname(os.path.abspath(__file__))))
 from selftest.benign_patches import overrides_for
 from sa.model import Model
 from sa.ctx import Ctx
 pid, owner, meth = sys.argv[1:4]
-ov = overrides_for({pid})[pid] if pid != '-' else None
+if os.path.isdir(pid):
+    from selftest.patchapply import apply_patch
+    from sa.model import REPO
+    ov = apply_patch(open(os.path.join(pid, 'patch.diff')).read(), lambda rel: open(os.path.join(REPO, rel)).read())
+    ov = {k: v for k, v in ov.items() if k.endswith('.py')}
+else:
+    ov = overrides_for({pid})[pid] if pid != '-' else None
 ctx = Ctx(Model(overrides=ov), K=2, depth=3, tier='quick')
 mod, cn = owner.rsplit('.', 1)
 cls = ctx.model.cls(mod, cn)
